@@ -158,6 +158,8 @@ var c09Share = core.Mon(c09, "concurrent-share", func(w *core.W, c *RaceCfg) {
 		"regexp(s0, pat)", "regexp(s0, '^g1-')", "regexp(s0, '^g2-')", "regexp(s0, 'g[0-9]*-abab$')", "[regexp(s0, pat), regexp(s0, '^x'), regexp(s0, pat)]", "regexp('g0-abab', pat) ? 1 : 2",
 		// failures that name what was called: each goroutine gets the error of ITS call
 		"n0(1)", "s0()", "m(2)", "arr()", "fid(arr...)", "fcat('a', arr...)", "abs(arr...)", "b0 ? n1(1) : s1(1)", "fnoret()", "m.k(1)", "left('a')", "right('a', 1, 2)", "fctx()", "undefinedfn(1)", "undefinedname.f(1)"}
+	// long lists whose elements bind and read locals: an evaluation proceeds element by element, in its own runner
+	hot = append(hot, "[$q = n0"+strings.Repeat(", $q", 254)+", $q = $q + 1, $q]", "["+strings.Repeat("$r = ($r ?? n0) + 1, ", 199)+"$r]", "fcat("+strings.Repeat("$t = s0, $t, ", 80)+"'e')")
 	srcs = append(hot, srcs...)
 	srcs = append(srcs, gen.Corpus...)
 	for len(srcs) < c.Trees {
